@@ -521,8 +521,9 @@ func VP_C07_spread() {
 		want int
 	}{
 		{"$a = 1, digits($a = 5, [$a, 7]...)", 557}, {"$x = 1, digits($x, [$x = 9, 0]...)", 190}, {"$a = 1, digits($a, [$a, $a = 3]...)", 113},
-		{"$a = 2, digits(($a = 4, $a), [$a]...)", 44}, {"$a = 1, digits($a = 5, $a, 7)", 557}, {"$a = 1, [$a, $a = 2, $a]", -1},
+		{"$a = 2, digits(($a = 4, $a), [$a]...)", 44}, {"$a = 1, digits($a = 5, $a, 7)", 557}, {"$a = 1, [$a, $a = 2, $a]", -1000},
 		{"$a = 6, digits($a, [1, 2]...) + ($a = 1)", 613}, {"digits($b = 3, [$b, $b]...) + $b", 336},
+		{"max($a = 4, 1), $a", 4}, {"(abs($a = -7)), $a", -7}, {"len($a = 'xyz'), len($a)", 3}, {"1, ($a = 2), 3, $a", 2}, {"toString($a = 5), max(1, 2), $a", 5},
 	}
 	p := pool[vpChoice("f", len(pool))]
 	code, err := ParseSourceCode([]byte(p.f))
@@ -535,7 +536,7 @@ func VP_C07_spread() {
 	v, rerr := vpExact(r, context.Background(), code.Expression)
 	vpObserve("spread", p.f, vpShowValue(v))
 	vpAssert("C07/spread/no-error", rerr == nil)
-	if p.want < 0 {
+	if p.want == -1000 {
 		arr, ok := v.([]interface{})
 		vpAssert("C07/spread/array-elements-left-to-right", ok && len(arr) == 3 && vpSameRef(arr[0], 1) && vpSameRef(arr[1], 2) && vpSameRef(arr[2], 2))
 	} else {
